@@ -37,13 +37,27 @@ theorem c09_schemas :
     ∧ Blue.Generated.sstTrailerBytes = 8 := by decide
 
 /-- `log_to_builder` / `log_to_setsum` hand a reader error on (`?`) — the model describes the code
-    after the repair of D-3 (`/repo fix 3de862f`); on the code as found, which
+    after the repair of D-3 (`fixes/d3-log-to-builder-unwrap.diff`); on the code as found, which
     unwraps, this obligation fails -/
 theorem c09_replay_propagates :
     Blue.Damage.replayPropagatesErrors = decide (Blue.Generated.logReplayUnwraps = 0) := by decide
 
-/-- the non-ASCII check of `ManifestIterator::next` returns its error without poisoning the
-    iterator (`Item.notAscii` lets `iterate` go on) -/
-theorem c09_mani_non_ascii_does_not_poison : Blue.Generated.maniNonAsciiPoisons = 0 := by decide
+/-- the non-ASCII check of `ManifestIterator::next` poisons the iterator like every other error
+    (`Item.notAscii` ends `iterate`) — the model describes the code after the repair
+    `fixes/mani-nonascii-poisons.diff`; on the code as found (`return Some(Err(..))`, modelled by
+    `iterateAsFound`) the extracted constant is 0 and this obligation fails -/
+theorem c09_mani_non_ascii_poisons : Blue.Generated.maniNonAsciiPoisons = 1 := by decide
+
+/-- the four checks the detection theorems lean on are in the source as the models state them:
+    `load_block` and `load_filter_block` return `crc32c-failure` when the payload's checksum is not
+    the recorded one (`readFrame`); `next_frame` returns an error when the file ends inside a frame's
+    payload (`nextFrame`: `off' + size > length`); the reader's `true_up` refuses more than
+    `HEADER_MAX_SIZE` bytes of padding and anything but zeros in it (`nextHeader`, `padZero`); the
+    manifest's separator is recognised by equality, not by prefix (`parseLine`: `line = SEP`) -/
+theorem c09_detection_checks_in_source :
+    Blue.Generated.sstBlockCrcMismatchIsError = 1 ∧ Blue.Generated.sstFilterCrcMismatchIsError = 1
+    ∧ Blue.Generated.logShortPayloadIsError = 1
+    ∧ Blue.Generated.logTrueUpBound = "HEADER_MAX_SIZE" ∧ Blue.Generated.logTrueUpChecksZero = 1
+    ∧ Blue.Generated.maniSeparatorExact = 1 := by decide
 
 end Blue.ConstsTie
